@@ -9,11 +9,12 @@ for f in sorted(glob.glob('/verif/seeded/*/meta.json')):
     key = ''
     for c, v in m.get('checks_run', {}).items():
         if v.get('violation_keys'):
-            key = v['violation_keys'][0][:160]; break
-    rows.append((m['id'], m.get('valid'), m.get('tier'), runs, ",".join(det) or '-', key, m.get('summary', '')))
-out = ["| seeded change | valid (tests 143/7, demo fails with / passes without) | tier | checks run | reported by | first violation key |", "|---|---|---|---|---|---|"]
+            key = v['violation_keys'][0][:150]; break
+    wave = {'A': 1, 'B': 1, 'C': 2, 'D': 2, 'E': 3, 'F': 3}.get(m['id'][-1], '?')
+    rows.append((m['id'], wave, m.get('summary', '').replace('|', '/'), m.get('valid'), m.get('tier'), runs, ",".join(det) or '-', key))
+out = ["| seeded change | wave | what was changed | valid (tests 143/7, demo fails with / passes without) | tier | checks run | reported by | first violation key |", "|---|---|---|---|---|---|---|---|"]
 for r in rows:
-    out.append(f"| {r[0]} | {r[1]} | {r[2]} | {r[3]} | {r[4]} | `{r[5]}` |")
+    out.append(f"| {r[0]} | {r[1]} | {r[2]} | {r[3]} | {r[4]} | {r[5]} | {r[6]} | `{r[7]}` |")
 txt = "\n".join(out) + "\n"
 open('/verif/seeded/TABLE.md', 'w').write(txt)
 print(txt)
